@@ -567,7 +567,7 @@ QUICK = [r'^nano::elemwise_gradient_t$', r'^nano::elemwise_generator_t<nano::ele
          r'^nano::pairwise_generator_t<nano::pairwise_product_t', r'^nano::generator_t$']
 QUICK_NAMES = {'process', 'select_struct', 'select_scalar', 'flatten', 'do_select', 'select', 'iterate', 'should_drop'}
 # enumerated functions that are deliberately NOT put under a frame target (with the reason: they go to not_decided)
-SKIP = {}
+SKIP = {('nano::generator_t', 'all'): 'static factory accessor: an init-once singleton (function-local static filled under std::call_once), classified by the lint, not part of the const interface of a generator object'}
 
 
 def targets(tier='quick'):
@@ -579,6 +579,9 @@ def targets(tier='quick'):
     for rec in en['functions']:
         if not rec['const']:
             nonconst.append(f'{rec["cls"]}::{rec["name"]}')
+            continue
+        if (rec['cls'], rec['name']) in SKIP:
+            skipped.append(f'{rec["cls"]}::{rec["name"]}: {SKIP[(rec["cls"], rec["name"])]}')
             continue
         key = (rec['cls'], rec['name'], rec['file'], rec['line'])
         if key in seen_loc:
@@ -607,7 +610,7 @@ def targets(tier='quick'):
             lam_lines.add(lam.get('line'))
             out.append(make_target(en, rec, types, lam=lam, lam_mangled=lam['mangled'][0]))
     info = {'classes': sorted(en['classes']), 'const_functions': len(seen_loc), 'instantiations': sum(seen_loc.values()),
-            'non_const_members_outside_the_const_interface': sorted(set(nonconst))}
+            'non_const_members_outside_the_const_interface': sorted(set(nonconst)), 'skipped': skipped}
     return out, info
 
 if __name__ == '__main__':
